@@ -5,8 +5,8 @@ import json, subprocess, sys
 CLAIMED = {
  "C01": dict(level="exploration", ref="DESIGN.md §7 C01, §2.3",
    technique="deterministic simulation: seeded sessions through a fault-injecting line (cut/empty read/bit flip/drop/dup/noise/truncate/restart) into the real parser+screen with simulated renderer/resizer/operator actors; crash, abort, hang and wedge oracle",
-   text="Seeded search over sessions, corruption faults, chunkings and actor interleavings (wiring P and Q, UTF-8 and 8-bit, 1x1..140x40); every run must return, leave the mutex unpoisoned, let display() return, and still process a probe stream (BEL CAN BEL CAN ESC c A must put A into cell 0,0). Truncation (program crash) is enumerated at every byte for short sessions; a few per mille of the runs blow one construct up far beyond the usual sizes. The thorough tier first runs an unoptimised build (largest frames on the parser's coroutine stack). Sampling: a clean batch is evidence, not proof.",
-   note="Built with overflow-checks and debug-assertions; aborts/stack overflows/hangs are seen by the parent process (signal exit, 20 s watchdog). Allocation failure and sizes beyond 140x40/132 are out of scope."),
+   text="Seeded search over sessions, corruption faults, chunkings and actor interleavings (wiring P and Q, UTF-8 and 8-bit, 1x1..140x40, 3 % up to 300x129); every run must return, leave the mutex unpoisoned, let display() return, and still process a probe stream (BEL CAN BEL CAN ESC c A must put A into cell 0,0). Truncation (program crash) is enumerated at every byte for short sessions; a few per mille of the runs blow one construct up far beyond the usual sizes. The thorough tier first runs an unoptimised build (largest frames on the parser's coroutine stack). Sampling: a clean batch is evidence, not proof.",
+   note="Built with overflow-checks and debug-assertions; aborts/stack overflows/hangs are seen by the parent process (signal exit, 20 s watchdog). Allocation failure and sizes beyond 300x129 are out of scope."),
  "C02": dict(level="fault_enumeration", ref="DESIGN.md §7 C02",
    technique="deterministic simulation: twin run of the real implementation under two delivery schedules of the same (fault-mangled) stream; every 2-way cut and byte-at-a-time enumerated for short streams, seeded k-way partitions otherwise",
    text="Model-free twin: the delivered stream fed in one call vs. cut into chunks must end in identical snapshots (cells, cursor, modes, margins, tab stops, titles, charsets, savepoint depth, dirty). For streams <= 64 bytes every 2-way cut and byte-at-a-time delivery are enumerated; longer ones and captured sessions get seeded partitions with empty reads. Parser (chars), ByteParser UTF-8 and 8-bit. Every 4th case is repeated with a second, unrelated terminal driven on the same thread between the chunks (state kept outside the objects); a few per mille of the streams are blown up far beyond the usual sizes (thousands of characters in one OSC, dozens of CSI parameters, kilobytes of ill-formed bytes).",
@@ -53,8 +53,8 @@ CLAIMED.update({
    text="Grade A. Events from the real ByteParser must equal those of the real character-level parser fed the reference decoding (std::str::from_utf8 driven incrementally, maximal-subpart U+FFFD, incomplete tail withheld; b as char in 8-bit segments). Every 2-way cut enumerated for strings <= 48 bytes.",
    note="std's decoder trusted, encoding_rs not; leniencies: leading BOM, pending tail at a mode switch."),
  "C12": dict(level="exploration", ref="DESIGN.md §7 C12, §8.3 SM/RM",
-   technique=SIMQ+"SM/RM judged by step relations (mode set + per-mode side effects)",
-   text="Grade B. Mode numbers 0..=9999 x private/ANSI x SM/RM, lists, repeats, both Operator spellings, interleaved with DECSC/DECRC, resizes, drawing: mode set and documented side effects (DECCOLM, DECOM, DECSCNM incl. all rows dirty, DECTCEM) and absence of any other effect.",
+   technique=SIMQ+"SM/RM judged by step relations (mode set + per-mode side effects); draws that reach the right edge or run in insert mode, and LF under LNM, judged by the DRAW/LINEFEED step relations",
+   text="Grade B. Mode numbers 0..=9999 x private/ANSI x SM/RM, lists, repeats, both Operator spellings, interleaved with DECSC/DECRC, resizes, drawing: mode set and documented side effects (DECCOLM, DECOM, DECSCNM incl. all rows dirty, DECTCEM) and absence of any other effect. IRM/DECAWM/LNM must govern draw and LF whoever changed the mode set last (SM/RM, DECRC, RIS).",
    note="Lists with two or more of DECCOLM/DECOM/DECSCNM are judged on the mode set only."),
  "C13": dict(level="exploration", ref="DESIGN.md §7 C13, §8.3 ICH/DCH",
    technique=SIMQ+"ICH/DCH judged by list-splice step relations on the visible row",
